@@ -1,9 +1,10 @@
-use crate::common::serialization::Serialized;
+use crate::common::serialization::{SerializationConfig, Serialized};
 use crate::server::autoalloc::{AllocationId, QueueId, QueueParameters};
-use crate::server::event::Event;
 use crate::server::event::journal::{EventStreamMessage, EventStreamSender};
 use crate::server::event::payload::{EventPayload, TaskNotification};
+use crate::server::event::{Event, EventSerializationConfig};
 use crate::transfer::messages::{JobDescription, SubmitRequest};
+use bincode::Options;
 use chrono::{DateTime, Utc};
 use serde::{Deserialize, Serialize};
 use smallvec::SmallVec;
@@ -220,13 +221,21 @@ impl EventStreamer {
                 return Ok(());
             }
         }
-        self.send_event(
+        let event = Event::at(
+            Utc::now(),
             EventPayload::Submit {
                 job_id,
                 closed_job: submit_request.job_id.is_none(),
                 serialized_desc: Serialized::new(submit_request)?,
             },
-            None,
+        );
+        // The journal stores (and loads) each event with a size limit, the event as a whole
+        // has to fit into it. It is checked here, because the thread that writes the journal
+        // cannot refuse the submit.
+        EventSerializationConfig::config().serialized_size(&event)?;
+        self.send_event(
+            event.payload,
+            Some(event.time),
             ForwardMode::StreamAndPersist,
         );
         Ok(())
